@@ -52,10 +52,14 @@ type StringV struct {
 	opaque bool
 }
 type TupleV struct{ v []Value }
+// MapIter iterates the entries present when the range started, in the selected
+// permutation; entries deleted meanwhile are skipped (Go semantics), entries added
+// meanwhile are not produced (one of the behaviours Go allows).
 type MapIter struct {
-	m   *MapObj
-	ord []int
-	pos int
+	m    *MapObj
+	keys []Value
+	vals []*Loc
+	pos  int
 }
 
 // RType models a reflect.Type. sym != nil: symbolic type descriptor (C11).
